@@ -23,6 +23,7 @@ pub fn group(name: &str) -> Group {
 		"route" => Group { name: "route", ops: vec![("a", "call", 1), ("b", "call", 1), ("c", "call", 1), ("d", "sub", 1)], max_queue: 2, buf_cap: 2 },
 		"stream" => Group { name: "stream", ops: vec![("a", "sub", 1), ("b", "sub", 1), ("c", "call", 1)], max_queue: 2, buf_cap: 1 },
 		"batch" => Group { name: "batch", ops: vec![("a", "batch", 3), ("b", "batch", 2), ("c", "call", 1)], max_queue: 4, buf_cap: 1 },
+		"faulty" => Group { name: "faulty", ops: vec![("a", "call", 1), ("b", "sub", 1), ("c", "batch", 2), ("d", "call", 1)], max_queue: 2, buf_cap: 1 },
 		_ => Group { name: "mixed", ops: vec![("a", "call", 1), ("b", "sub", 1), ("c", "batch", 2), ("d", "sub", 1)], max_queue: 3, buf_cap: 2 },
 	}
 }
@@ -288,7 +289,7 @@ async fn scenario(g: &Group, rng: &mut StdRng, sc: usize, panics: &Arc<parking_l
 					}
 				}
 			}
-		} else if roll < 90 && !faulted {
+		} else if roll < (if g.name == "faulty" { 96 } else { 90 }) && !faulted {
 			faulted = true;
 			match rng.random_range(0..3) {
 				0 => {
